@@ -200,3 +200,512 @@ Proof.
   - unfold step_initialize_row in H. inversion H; subst s'. exact Hnode.
   - inversion H; subst s'. exact Hnode.
 Qed.
+
+(* ------------------------------------------------------------------------------------------ *)
+(* the tree-aware functions coincide with the originals on tree-free states                    *)
+(* ------------------------------------------------------------------------------------------ *)
+Lemma owning_trees_nil p s : TFs s -> owning_trees p s = [].
+Proof.
+  intros HT. unfold owning_trees.
+  assert (H : filter (fun n => kind_eqb (fst (nk n)) KTree && negb (ndet n) && is_prefix (snd (nk n)) p) (nodes s) = []).
+  { unfold TFs in HT. revert HT. generalize (nodes s). intros ns. induction ns as [|n ns IH]; intros HT; [reflexivity|]. cbn.
+    destruct (HT n (or_introl eq_refl)) as [H1 _].
+    assert (E : kind_eqb (fst (nk n)) KTree = false) by (destruct (fst (nk n)); try reflexivity; congruence).
+    rewrite E. cbn. apply IH. intros m Hm. apply HT. right. exact Hm. }
+  rewrite H. reflexivity.
+Qed.
+
+Lemma find_owning_tree_none p s : TFs s -> find_owning_tree p s = Ok None.
+Proof. intros HT. unfold find_owning_tree. rewrite owning_trees_nil; [reflexivity | exact HT]. Qed.
+
+Lemma tree_guard_ok c l s : TFs s -> tree_guard c l s = Ok tt.
+Proof.
+  intros HT. unfold tree_guard. destruct (kind_eqb (fst c) KTree); [reflexivity|].
+  rewrite find_owning_tree_none; [reflexivity | exact HT].
+Qed.
+
+Lemma declare_file_t_eq c l f s : TFs s -> declare_file_t c l f s = declare_file c l f s.
+Proof.
+  intros HT. unfold declare_file_t. rewrite tree_guard_ok; [|exact HT]. destruct f; reflexivity.
+Qed.
+
+Lemma node_key_not_tree k s : TFs s -> find_node k s <> None -> fst k <> KTree.
+Proof.
+  intros HT H. unfold find_node in H. fold (findn k (nodes s)) in H.
+  destruct (findn k (nodes s)) as [n|] eqn:E; [|congruence]. apply findn_In in E. destruct E as [Hin Hk].
+  rewrite <- Hk. apply HT. exact Hin.
+Qed.
+
+Lemma static_declarer_eq c l s : TFs s -> static_declarer c l s = Ok c.
+Proof.
+  intros HT. unfold static_declarer. destruct (kind_eqb (fst c) KTree); [reflexivity|].
+  rewrite find_owning_tree_none; [reflexivity | exact HT].
+Qed.
+
+Lemma check_declaration_node_t_eq c l role s :
+  TFs s -> check_declaration_node_t c l role s = check_declaration_node c l role s.
+Proof.
+  intros HT. unfold check_declaration_node_t, check_declaration_node.
+  destruct (existing_claim l s) as [[[ro cr]|]|t|t] eqn:E; try reflexivity. cbn [bind].
+  destruct ((ro =? role) && key_eqb cr c); [reflexivity|].
+  assert (Hcr : kind_eqb (fst cr) KTree = false).
+  { unfold existing_claim in E. unfold find_node in E. fold (findn (KFile, l) (nodes s)) in E.
+    destruct (findn (KFile, l) (nodes s)) as [n|] eqn:En; [|discriminate].
+    destruct (find_file l s); [|discriminate]. destruct (ndet n); [discriminate|].
+    destruct (ncre n) as [c0|] eqn:Ec; [|discriminate]. destruct (role_of (fstt f)); [|discriminate].
+    inversion E; subst. apply findn_In in En. destruct En as [Hin _].
+    destruct (HT n Hin) as [_ H2]. specialize (H2 cr Ec). destruct (fst cr); try reflexivity. congruence. }
+  rewrite Hcr. reflexivity.
+Qed.
+
+Lemma foldM_eq_inv {A S} (f g : S -> A -> res S) (I : S -> Prop) l :
+  (forall s a, I s -> f s a = g s a) -> (forall s a s', I s -> g s a = Ok s' -> I s') ->
+  forall s, I s -> foldM f l s = foldM g l s.
+Proof.
+  intros Hfg Hinv. induction l as [|a l IH]; intros s Hs; cbn [foldM]; [reflexivity|].
+  rewrite (Hfg s a Hs). destruct (g s a) as [s1|t|t] eqn:E; cbn [bind]; try reflexivity.
+  apply IH. eapply Hinv; eassumption.
+Qed.
+
+Lemma declare_file_TF c l f s s' : TFs s -> declare_file c l f s = Ok s' -> TFs s'.
+Proof.
+  intros HT. unfold declare_file.
+  assert (Hc : forall s1, create (KFile, l) (Some c) (InitFile f) s = Ok s1 -> TFs s1).
+  { intros s1 H. apply (create_TF (KFile, l) (Some c) (InitFile f) s s1); [discriminate | | exact H | exact HT].
+    intros c0 E. inversion E; subst c0. apply (node_key_not_tree c s HT).
+    unfold create, creator_ok in H. destruct (find_node c s); [discriminate | cbn in H; discriminate H]. }
+  destruct f; try discriminate;
+    (destruct (create (KFile, l) (Some c) _ s) as [s1|t|t] eqn:E; try discriminate; cbn [bind]; specialize (Hc s1 eq_refl)).
+  - intros H; inversion H; subst; exact Hc.
+  - intros H; inversion H; subst; exact Hc.
+  - destruct (attached_step_sinks l s1); [|discriminate]. intros H; inversion H; subst; exact Hc.
+Qed.
+
+Lemma static_second_fold_eq c todo : forall s0, TFs s0 ->
+  foldM (fun s (dl : key * str) => declare_file_t (fst dl) (snd dl) FUnconfirmed s) (map (fun l => (c, l)) todo) s0 =
+  foldM (fun s l => declare_file c l FUnconfirmed s) todo s0.
+Proof.
+  induction todo as [|l todo IH]; intros s0 HT; cbn [foldM map]; [reflexivity|].
+  cbn [fst snd]. rewrite declare_file_t_eq; [|exact HT].
+  destruct (declare_file c l FUnconfirmed s0) as [s1|t|t] eqn:E; cbn [bind]; try reflexivity.
+  apply IH. eapply declare_file_TF; eassumption.
+Qed.
+
+Lemma declare_static_files_t_eq c paths s :
+  TFs s -> declare_static_files_t c paths s = declare_static_files c paths s.
+Proof.
+  intros HT. unfold declare_static_files_t, declare_static_files.
+  destruct (negb (is_some (find_node c s))); [reflexivity|].
+  assert (Htodo : forall acc,
+            foldM (fun acc l => do d <- static_declarer c l s; do isnew <- check_declaration_node_t d l 61 s;
+                                Ok (if isnew : bool then acc ++ [(d, l)] else acc)) paths (map (fun l => (c, l)) acc) =
+            match foldM (fun acc l => do isnew <- check_declaration_node c l 61 s;
+                                      Ok (if isnew : bool then acc ++ [l] else acc)) paths acc with
+            | Ok todo => Ok (map (fun l => (c, l)) todo) | Usage t => Usage t | Internal t => Internal t end).
+  { induction paths as [|p paths IH]; intros acc; cbn [foldM]; [reflexivity|].
+    rewrite static_declarer_eq; [|exact HT]. cbn [bind]. rewrite check_declaration_node_t_eq; [|exact HT].
+    destruct (check_declaration_node c p 61 s) as [[]|t|t]; cbn [bind]; try reflexivity.
+    - rewrite <- IH. rewrite map_app. reflexivity.
+    - apply IH. }
+  specialize (Htodo []). cbn [map] in Htodo. rewrite Htodo. clear Htodo.
+  set (R := foldM (fun acc l => do isnew <- check_declaration_node c l 61 s;
+                              Ok (if isnew : bool then acc ++ [l] else acc)) paths []).
+  destruct R as [todo|t|t]; cbn [bind]; try reflexivity.
+  apply static_second_fold_eq. exact HT.
+Qed.
+
+Lemma is_detached_nodes_eq' x s s' : nodes s' = nodes s -> is_detached x s' = is_detached x s.
+Proof. intros H. unfold is_detached, find_node. rewrite H. reflexivity. Qed.
+
+Lemma resolve_supply_file_t_eq step l rn s :
+  TFs s -> resolve_supply_file_t step l rn s = resolve_supply_file step l rn s.
+Proof.
+  intros HT. unfold resolve_supply_file_t. destruct (is_detached (KFile, l) s); [|reflexivity].
+  rewrite find_owning_tree_none; [reflexivity | exact HT].
+Qed.
+
+Lemma resolve_supply_file_TF step l rn s r : TFs s -> resolve_supply_file step l rn s = Ok r -> TFs (fst r).
+Proof.
+  intros HT. unfold resolve_supply_file.
+  assert (Hc : forall s1, create (KFile, l) None (InitFile FUndeclared) s = Ok s1 -> TFs s1).
+  { intros s1 H. apply (create_TF (KFile, l) None (InitFile FUndeclared) s s1); [discriminate | intros c E; discriminate | exact H | exact HT]. }
+  assert (Hfin : forall s1, TFs s1 ->
+            (let isnew := negb (has_dep (KFile, l) (KStep, step) s1) in
+             if negb isnew && rn then Usage 205 else Ok (s1, isnew)) = Ok r -> TFs (fst r)).
+  { intros s1 H1. cbn zeta. destruct (negb (negb _) && rn); [discriminate|]. intros H; inversion H. exact H1. }
+  destruct (find_node (KFile, l) s) as [n|].
+  - destruct (ncre n).
+    + destruct (fstate_of l s) as [[]|]; try discriminate; cbn [bind]; apply Hfin; exact HT.
+    + destruct (create _ None _ s) as [s1|t|t] eqn:E; try discriminate. cbn [bind]. apply Hfin. apply Hc. reflexivity.
+  - destruct (create _ None _ s) as [s1|t|t] eqn:E; try discriminate. cbn [bind]. apply Hfin. apply Hc. reflexivity.
+Qed.
+
+Lemma add_dep_nodes a b dyn s s' : add_dep a b dyn s = Ok s' -> nodes s' = nodes s.
+Proof.
+  unfold add_dep. destruct (has_dep a b s); [discriminate|]. destruct (negb _); [discriminate|].
+  intros H; inversion H. reflexivity.
+Qed.
+
+Lemma supply_files_t_eq step paths rn dyn s :
+  TFs s -> supply_files_t step paths rn dyn s = supply_files step paths rn dyn s.
+Proof.
+  intros HT. unfold supply_files_t, supply_files.
+  rewrite (foldM_eq_inv _ (fun (acc : st * list str) l =>
+             do x <- resolve_supply_file step l rn (fst acc);
+             Ok (fst x, if snd x then snd acc ++ [l] else snd acc)) (fun acc => TFs (fst acc))); [reflexivity| | |exact HT].
+  - intros acc l Ha. rewrite resolve_supply_file_t_eq; [reflexivity | exact Ha].
+  - intros acc l acc' Ha H. destruct (resolve_supply_file step l rn (fst acc)) as [x|t|t] eqn:E; try discriminate.
+    cbn [bind] in H. inversion H; subst acc'. cbn [fst]. eapply resolve_supply_file_TF; eassumption.
+Qed.
+
+Lemma supply_files_TF step paths rn dyn s s' : TFs s -> supply_files step paths rn dyn s = Ok s' -> TFs s'.
+Proof.
+  intros HT. unfold supply_files.
+  destruct (foldM _ paths (s, [])) as [r|t|t] eqn:E; try discriminate. cbn [bind].
+  assert (Hr : TFs (fst r)).
+  { assert (Hgen : forall a : st * list str, TFs (fst a) ->
+              foldM (fun (acc : st * list str) l =>
+                       do x <- resolve_supply_file step l rn (fst acc);
+                       Ok (fst x, if snd x then snd acc ++ [l] else snd acc)) paths a = Ok r -> TFs (fst r)).
+    { clear E. induction paths as [|p paths IH]; intros a Ha E; cbn [foldM] in E.
+      - inversion E; subst. exact Ha.
+      - destruct (resolve_supply_file step p rn (fst a)) as [x|t|t] eqn:Ex; try discriminate. cbn [bind] in E.
+        eapply IH; [|exact E]. cbn [fst]. eapply resolve_supply_file_TF; eassumption. }
+    apply (Hgen (s, [])); [exact HT | exact E]. }
+  destruct (match snd r with [] => false | _ => _ end); [discriminate|].
+  intros H. eapply (foldM_TF (fun s l => add_dep (KFile, l) (KStep, step) dyn s)); [|exact H|exact Hr].
+  intros a b c Hab Ha. eapply TFs_nodes; [eapply add_dep_nodes; exact Hab | exact Ha].
+Qed.
+
+Lemma add_output_edge_nodes step l dyn s s' : add_output_edge step l dyn s = Ok s' -> nodes s' = nodes s.
+Proof. unfold add_output_edge. destruct (would_cycle _ _ s); [discriminate|]. apply add_dep_nodes. Qed.
+
+Lemma out_fold_eq k label dyn f ls s :
+  TFs s ->
+  foldM (fun s l => do s' <- declare_file_t k l f s; add_output_edge label l dyn s') ls s =
+  foldM (fun s l => do s' <- declare_file k l f s; add_output_edge label l dyn s') ls s.
+Proof.
+  intros HT. apply (foldM_eq_inv _ _ TFs); [| |exact HT].
+  - intros s0 l H0. rewrite declare_file_t_eq; [reflexivity | exact H0].
+  - intros s0 l s1 H0 H. destruct (declare_file k l f s0) as [s2|t|t] eqn:E; try discriminate. cbn [bind] in H.
+    eapply TFs_nodes; [eapply add_output_edge_nodes; exact H|]. eapply declare_file_TF; eassumption.
+Qed.
+
+Lemma out_fold_TF k label dyn f ls s s' :
+  TFs s -> foldM (fun s l => do s' <- declare_file k l f s; add_output_edge label l dyn s') ls s = Ok s' -> TFs s'.
+Proof.
+  intros HT H. eapply (foldM_TF (fun s l => do s' <- declare_file k l f s; add_output_edge label l dyn s')); [|exact H|exact HT].
+  intros s0 l s1 H1 H0. destruct (declare_file k l f s0) as [s2|t|t] eqn:E; try discriminate. cbn [bind] in H1.
+  eapply TFs_nodes; [eapply add_output_edge_nodes; exact H1|]. eapply declare_file_TF; eassumption.
+Qed.
+
+Lemma fold_add_env_nodes label dyn rep env s : nodes (fold_left (fun s e => add_env label e dyn rep s) env s) = nodes s.
+Proof.
+  revert s. induction env as [|e env IH]; intros s; cbn; [reflexivity|]. rewrite IH.
+  destruct (add_env_frame label e dyn rep s) as [E _]. exact E.
+Qed.
+
+Lemma define_step_new_t_eq creator label inp env out vol nd s :
+  TFs s -> find_node creator s <> None ->
+  define_step_new_t creator label inp env out vol nd s = define_step_new creator label inp env out vol nd s.
+Proof.
+  intros HT Hc. unfold define_step_new_t, define_step_new.
+  destruct (foldM _ out tt) as [[]|t|t]; cbn [bind]; try reflexivity.
+  destruct (foldM _ vol tt) as [[]|t|t]; cbn [bind]; try reflexivity.
+  destruct (existsb _ out); [reflexivity|].
+  destruct (create (KStep, label) (Some creator) (InitStep nd) s) as [s1|t|t] eqn:E1; cbn [bind]; try reflexivity.
+  assert (H1 : TFs s1).
+  { apply (create_TF (KStep, label) (Some creator) (InitStep nd) s s1); [discriminate | | exact E1 | exact HT]. intros c E. inversion E; subst c.
+    apply (node_key_not_tree creator s HT Hc). }
+  rewrite supply_files_t_eq; [|exact H1].
+  destruct (supply_files label inp true false s1) as [s2|t|t] eqn:E2; cbn [bind]; try reflexivity.
+  assert (H2 : TFs s2) by (eapply supply_files_TF; eassumption).
+  assert (H3 : TFs (fold_left (fun s e => add_env label e false true s) env s2)).
+  { eapply TFs_nodes; [apply fold_add_env_nodes | exact H2]. }
+  set (s3 := fold_left (fun s e => add_env label e false true s) env s2) in *.
+  rewrite (out_fold_eq (KStep, label) label false FPlanned out s3 H3).
+  destruct (foldM _ out s3) as [s4|t|t] eqn:E4; cbn [bind]; try reflexivity.
+  apply out_fold_eq. eapply out_fold_TF; eassumption.
+Qed.
+
+Lemma define_step_new_TF creator label inp env out vol nd s s' :
+  TFs s -> find_node creator s <> None ->
+  define_step_new creator label inp env out vol nd s = Ok s' -> TFs s'.
+Proof.
+  intros HT Hc. unfold define_step_new.
+  destruct (foldM _ out tt) as [[]|t|t]; cbn [bind]; try discriminate.
+  destruct (foldM _ vol tt) as [[]|t|t]; cbn [bind]; try discriminate.
+  destruct (existsb _ out); [discriminate|].
+  destruct (create (KStep, label) (Some creator) (InitStep nd) s) as [s1|t|t] eqn:E1; cbn [bind]; try discriminate.
+  assert (H1 : TFs s1).
+  { apply (create_TF (KStep, label) (Some creator) (InitStep nd) s s1); [discriminate | | exact E1 | exact HT]. intros c E. inversion E; subst c.
+    apply (node_key_not_tree creator s HT Hc). }
+  destruct (supply_files label inp true false s1) as [s2|t|t] eqn:E2; cbn [bind]; try discriminate.
+  assert (H2 : TFs s2) by (eapply supply_files_TF; eassumption).
+  assert (H3 : TFs (fold_left (fun s e => add_env label e false true s) env s2)).
+  { eapply TFs_nodes; [apply fold_add_env_nodes | exact H2]. }
+  destruct (foldM _ out _) as [s4|t|t] eqn:E4; cbn [bind]; try discriminate.
+  intros H. eapply out_fold_TF; [|exact H]. eapply out_fold_TF; eassumption.
+Qed.
+
+Lemma define_step_t_eq creator label inp env out vol nd s :
+  TFs s -> define_step_t creator label inp env out vol nd s = define_step creator label inp env out vol nd s.
+Proof.
+  intros HT. unfold define_step_t, define_step.
+  destruct (is_some (find_node creator s)) eqn:Ec; cbn [negb]; [|reflexivity]. apply is_some_true in Ec.
+  destruct (key_eqb creator root_key && root_has_step s); [reflexivity|].
+  destruct (key_eqb creator (KStep, label)); [reflexivity|].
+  destruct (mem_key creator _); [reflexivity|].
+  destruct (find_node (KStep, label) s) as [n|].
+  - destruct (ndet n && can_recycle label inp env out vol s); [reflexivity|].
+    destruct (negb (ndet n)); [reflexivity|]. apply define_step_new_t_eq; assumption.
+  - apply define_step_new_t_eq; assumption.
+Qed.
+
+Lemma upd_step_nodes l g s : nodes (upd_step l g s) = nodes s.
+Proof. reflexivity. Qed.
+
+Lemma define_step_TF creator label inp env out vol nd s s' :
+  TFs s -> define_step creator label inp env out vol nd s = Ok s' -> TFs s'.
+Proof.
+  intros HT. unfold define_step.
+  destruct (is_some (find_node creator s)) eqn:Ec; cbn [negb]; [|discriminate]. apply is_some_true in Ec.
+  destruct (key_eqb creator root_key && root_has_step s); [discriminate|].
+  destruct (key_eqb creator (KStep, label)); [discriminate|].
+  destruct (mem_key creator _); [discriminate|].
+  destruct (find_node (KStep, label) s) as [n|].
+  - destruct (ndet n && can_recycle label inp env out vol s).
+    + destruct (node_reattach (KStep, label) creator s) as [s1|t|t] eqn:E1; try discriminate. cbn [bind].
+      assert (H1 : TFs s1).
+      { eapply node_reattach_TF; [|exact E1|exact HT]. apply (node_key_not_tree creator s HT Ec). }
+      set (s2 := upd_step label _ s1). assert (H2 : TFs s2) by exact H1.
+      destruct (sstate_of label s2) as [[]|]; try (intros H; inversion H; subst; exact H2).
+      intros H. eapply TFs_nodes; [exact (ok_of_wpg _ _ _ (mark_step_pending_nodes label s2) H) | exact H2].
+    + destruct (negb (ndet n)); [discriminate|]. apply define_step_new_TF; assumption.
+  - apply define_step_new_TF; assumption.
+Qed.
+
+Lemma todo_fold_eq (k : key) role s2 ls : forall acc,
+  foldM (fun acc l => do isnew <- check_declaration_node k l role s2; Ok (if isnew : bool then acc ++ [l] else acc)) ls acc =
+  foldM (fun acc l => do isnew <- check_declaration_node k l role s2; Ok (if isnew : bool then acc ++ [l] else acc)) ls acc.
+Proof. reflexivity. Qed.
+
+Lemma amend_step_t_eq label inp env out vol s :
+  TFs s -> amend_step_t label inp env out vol s = amend_step label inp env out vol s.
+Proof.
+  intros HT. unfold amend_step_t, amend_step.
+  destruct (negb (is_some (find_node (KStep, label) s) && is_some (find_step label s))); [reflexivity|].
+  rewrite supply_files_t_eq; [|exact HT].
+  destruct (supply_files label inp false true s) as [s1|t|t] eqn:E1; cbn [bind]; try reflexivity.
+  assert (H1 : TFs s1) by (eapply supply_files_TF; eassumption).
+  set (s2 := fold_left (fun s e => add_env label e true false s) env s1).
+  assert (H2 : TFs s2). { eapply TFs_nodes; [apply fold_add_env_nodes | exact H1]. }
+  destruct (foldM _ out []) as [out'|t|t]; cbn [bind]; try reflexivity.
+  destruct (foldM _ vol []) as [vol'|t|t]; cbn [bind]; try reflexivity.
+  destruct (existsb _ out'); [reflexivity|].
+  rewrite (out_fold_eq (KStep, label) label true FPlanned out' s2 H2).
+  destruct (foldM _ out' s2) as [s3|t|t] eqn:E3; cbn [bind]; try reflexivity.
+  apply out_fold_eq. eapply out_fold_TF; eassumption.
+Qed.
+
+Lemma amend_step_TF label inp env out vol s s' : TFs s -> amend_step label inp env out vol s = Ok s' -> TFs s'.
+Proof.
+  intros HT. unfold amend_step.
+  destruct (negb (is_some (find_node (KStep, label) s) && is_some (find_step label s))); [discriminate|].
+  destruct (supply_files label inp false true s) as [s1|t|t] eqn:E1; cbn [bind]; try discriminate.
+  assert (H1 : TFs s1) by (eapply supply_files_TF; eassumption).
+  set (s2 := fold_left (fun s e => add_env label e true false s) env s1).
+  assert (H2 : TFs s2). { eapply TFs_nodes; [apply fold_add_env_nodes | exact H1]. }
+  destruct (foldM _ out []) as [out'|t|t]; cbn [bind]; try discriminate.
+  destruct (foldM _ vol []) as [vol'|t|t]; cbn [bind]; try discriminate.
+  destruct (existsb _ out'); [discriminate|].
+  destruct (foldM _ out' s2) as [s3|t|t] eqn:E3; cbn [bind]; try discriminate.
+  intros H. eapply out_fold_TF; [|exact H]. eapply out_fold_TF; eassumption.
+Qed.
+
+Lemma unused_tree_files_nil s : TFs s -> unused_tree_files s = [].
+Proof.
+  intros HT. unfold unused_tree_files.
+  assert (H : filter (fun n => kind_eqb (fst (nk n)) KFile &&
+                           match ncre n with Some t => tree_attached t s | None => false end &&
+                           match attached_step_sinks (snd (nk n)) s with [] => true | _ => false end) (nodes s) = []).
+  { assert (Hall : forall n, In n (nodes s) -> match ncre n with Some t => tree_attached t s | None => false end = false).
+    { intros n Hn. destruct (ncre n) as [t|] eqn:Ec; [|reflexivity]. destruct (HT n Hn) as [_ H2].
+      specialize (H2 t Ec). unfold tree_attached. destruct (fst t); try reflexivity. congruence. }
+    revert Hall. generalize (nodes s). intros ns. induction ns as [|n ns IH]; intros Hall; [reflexivity|]. cbn.
+    rewrite (Hall n (or_introl eq_refl)), andb_false_r. cbn.
+    apply IH. intros m Hm. apply Hall. right. exact Hm. }
+  rewrite H. reflexivity.
+Qed.
+
+Lemma delete_detached_t_eq s : TFs s -> delete_detached_t s = delete_detached s.
+Proof. intros HT. unfold delete_detached_t. rewrite unused_tree_files_nil; [reflexivity | exact HT]. Qed.
+
+(* the simulation *)
+Theorem step_op_t_base_eq o s : no_tree_b s = true -> step_op_t (OpBase o) s = step_op o s.
+Proof.
+  intros H. apply no_tree_b_iff in H. destruct o; cbn [step_op_t step_op]; try reflexivity.
+  - apply declare_static_files_t_eq. exact H.
+  - apply define_step_t_eq. exact H.
+  - apply amend_step_t_eq. exact H.
+  - apply delete_detached_t_eq. exact H.
+Qed.
+
+(* ------------------------------------------------------------------------------------------ *)
+(* the tree-free fragment is closed under the 14 base operations                               *)
+(* ------------------------------------------------------------------------------------------ *)
+Lemma mark_consumers_pending_nodes f s : wpg false (mark_consumers_pending f s) (fun s' => nodes s' = nodes s).
+Proof. unfold mark_consumers_pending. apply foldM_nodes. intros; apply mark_step_pending_nodes. Qed.
+
+Lemma update_file_hashes_nodes c hs s : wpg false (update_file_hashes c hs s) (fun s' => nodes s' = nodes s).
+Proof.
+  unfold update_file_hashes. apply wpg_bind. destruct (foldM _ hs []) as [plan|t|t]; try exact I. cbn [wpg].
+  apply wpg_bind. eapply wpg_weaken.
+  { apply foldM_nodes. intros s0 x. apply wpg_of_ok. intros s1 H. eapply set_fstate_hash_nodes. exact H. }
+  intros s1 H1. cbn zeta. apply wpg_bind. eapply wpg_weaken.
+  { apply foldM_nodes. intros s0 l. unfold handle_updated_file.
+    destruct (fstate_of l s0) as [[]|]; try (cbn; reflexivity);
+      try (destruct (step_creator_of_file l s0); [apply mark_step_pending_nodes | cbn; reflexivity]).
+    apply mark_consumers_pending_nodes. }
+  intros s2 H2. apply wpg_bind. eapply wpg_weaken.
+  { apply foldM_nodes. intros s0 l. unfold handle_deleted_file. apply wpg_bind.
+    assert (Ha : wpg false (match fstate_of l s0 with
+                            | Some FPlanned => match step_creator_of_file l s0 with
+                                               | Some c => mark_step_pending c s0 | None => Ok s0 end
+                            | _ => Ok s0 end) (fun s' => nodes s' = nodes s0)).
+    { destruct (fstate_of l s0) as [[]|]; try (cbn; reflexivity).
+      destruct (step_creator_of_file l s0); [apply mark_step_pending_nodes | cbn; reflexivity]. }
+    eapply wpg_weaken; [exact Ha|]. intros s1' Hn. eapply wpg_weaken; [apply mark_consumers_pending_nodes|].
+    intros s2' Hn2. congruence. }
+  intros s3 H3. eapply wpg_weaken; [apply foldM_nodes; intros; apply mark_consumers_pending_nodes|].
+  intros s4 H4. congruence.
+Qed.
+
+Lemma wpg_TF_nodes (r : res st) s : TFs s -> wpg false r (fun s' => nodes s' = nodes s) -> wpg false r TFs.
+Proof. intros HT H. eapply wpg_weaken; [exact H|]. intros s' Hn. cbn beta in Hn. exact (TFs_nodes s s' Hn HT). Qed.
+
+Lemma foldM_TFw {A} (f : st -> A -> res st) (l : list A) s :
+  (forall s a, TFs s -> wpg false (f s a) TFs) -> TFs s -> wpg false (foldM f l s) TFs.
+Proof. intros Hf HT. apply (wpg_foldM false f TFs); [|exact HT]. intros s1 a _ H1. apply Hf. exact H1. Qed.
+
+Lemma node_detach_TFw k s : TFs s -> wpg false (node_detach k s) TFs.
+Proof. intros HT. apply wpg_of_ok. intros s' H. eapply node_detach_TF; eassumption. Qed.
+
+Lemma reset_for_rerun_TF step s : TFs s -> wpg false (reset_for_rerun step s) TFs.
+Proof.
+  intros HT. unfold reset_for_rerun. apply wpg_bind. eapply wpg_weaken.
+  { apply foldM_TFw; [|exact HT]. intros s0 x H0. apply node_detach_TFw. exact H0. }
+  intros s3 H3. apply wpg_bind. unfold detach_created_steps. eapply wpg_weaken; [apply foldM_TFw; [intros; apply node_detach_TFw; assumption | exact H3]|].
+  intros s4 H4. apply wpg_bind. eapply wpg_weaken; [apply foldM_TFw; [intros; apply node_detach_TFw; assumption | exact H4]|].
+  intros s5 H5. apply wpg_bind. eapply wpg_weaken; [apply foldM_TFw; [intros; apply node_detach_TFw; assumption | exact H5]|].
+  intros s6 H6. apply foldM_TFw; [|exact H6]. intros s0 l H0. apply (wpg_TF_nodes _ s0 H0). apply mark_file_outdated_nodes.
+Qed.
+
+Lemma set_sstate_TFw l new d s : TFs s -> wpg false (set_sstate l new d s) TFs.
+Proof. intros HT. apply wpg_of_ok. intros s' H. eapply TFs_nodes; [eapply set_sstate_nodes; exact H | exact HT]. Qed.
+
+Lemma mark_completed_TF step ok wd s : TFs s -> wpg false (mark_completed step ok wd s) TFs.
+Proof.
+  intros HT. unfold mark_completed. destruct (negb (is_some (find_step step s))); [exact I|]. destruct ok.
+  - apply wpg_bind. eapply wpg_weaken; [apply set_sstate_TFw; exact HT|]. intros s1 H1.
+    apply wpg_bind. eapply wpg_weaken.
+    { apply foldM_TFw; [|exact H1]. intros s0 l H0. apply wpg_bind. unfold set_fstate.
+      destruct (set_fstate_hash l FBuilt None s0) as [s2|t|t] eqn:E; try exact I. cbn.
+      apply (wpg_TF_nodes _ s2); [eapply TFs_nodes; [eapply set_fstate_hash_nodes; exact E | exact H0]|].
+      apply mark_consumers_pending_nodes. }
+    intros s2 H2. cbn. unfold store_hash. destruct (has_hash step s2); exact H2.
+  - apply wpg_bind. eapply wpg_weaken.
+    { apply foldM_TFw; [|exact HT]. intros s0 l H0. apply wpg_of_ok. intros s1 H. unfold set_fstate in H.
+      eapply TFs_nodes; [eapply set_fstate_hash_nodes; exact H | exact H0]. }
+    intros s1 H1. apply wpg_bind.
+    assert (Hs : wpg false
+              (if wd
+               then match find_step step s1 with
+                    | None => Internal 120
+                    | Some r =>
+                      let dc := sdc r + 1 in
+                      let s' := upd_step step (fun r => mkS (sl r) (sst r) (sneed r) (sdef r) dc (shold r)) s1 in
+                      if dc <=? defer_cap s then set_sstate step SPending (has_unavailable_dynamic_input step s') s'
+                      else set_sstate step SFailed false s'
+                    end
+               else set_sstate step SFailed false s1) TFs).
+    { destruct wd; [|apply set_sstate_TFw; exact H1]. destruct (find_step step s1); [|exact I]. cbn zeta.
+      destruct (sdc s0 + 1 <=? defer_cap s); apply set_sstate_TFw; exact H1. }
+    eapply wpg_weaken; [exact Hs|]. intros s2 H2. apply wpg_bind.
+    assert (Hd : wpg false (match sstate_of step s2 with
+                            | Some SFailed => detach_created_steps step s2 | _ => Ok s2 end) TFs).
+    { destruct (sstate_of step s2) as [[]|]; try exact H2. unfold detach_created_steps.
+      apply foldM_TFw; [intros; apply node_detach_TFw; assumption | exact H2]. }
+    eapply wpg_weaken; [exact Hd|]. intros s3 H3. cbn. exact H3.
+Qed.
+
+Lemma delete_node_TF k s : TFs s -> TFs (delete_node k s).
+Proof.
+  intros HT. assert (Hn : nodes (delete_node k s) = removen k (nodes s)).
+  { unfold delete_node. destruct k as [[] kl]; reflexivity. }
+  unfold TFs. rewrite Hn. intros n Hin. unfold removen in Hin. apply filter_In in Hin. apply HT. tauto.
+Qed.
+
+Lemma delete_detached_TF s : TFs s -> wpg false (delete_detached s) TFs.
+Proof.
+  intros HT. unfold delete_detached.
+  assert (Hl : forall fuel lost s0, TFs s0 -> TFs (fst (dd_loop fuel lost s0))).
+  { induction fuel as [|fuel IH]; intros lost s0 H0; cbn [dd_loop]; [exact H0|].
+    destruct (find _ (nodes s0)); [|exact H0]. apply IH. apply delete_node_TF. exact H0. }
+  apply foldM_TFw; [|apply Hl; exact HT]. intros s0 c H0. destruct (find_node c s0); [|exact H0].
+  apply wpg_of_ok. intros s1 H. eapply TFs_nodes; [eapply after_lost_product_nodes; exact H | exact H0].
+Qed.
+
+Lemma reset_interrupted_TF s : TFs s -> wpg false (reset_interrupted s) TFs.
+Proof.
+  intros HT. unfold reset_interrupted.
+  assert (Hraw : forall l new s0, TFs s0 -> wpg false (set_sstate_raw l new s0) TFs).
+  { intros l new s0 H0. unfold set_sstate_raw. destruct (find_step l s0); [apply set_sstate_TFw; exact H0 | exact H0]. }
+  apply wpg_bind. eapply wpg_weaken.
+  { apply foldM_TFw; [|exact HT]. intros s0 r H0. destruct (sst r); try exact H0. apply Hraw. exact H0. }
+  intros s1 H1. apply wpg_bind. eapply wpg_weaken.
+  { apply foldM_TFw; [|exact H1]. intros s0 r H0. destruct (sst r); try exact H0. apply Hraw. exact H0. }
+  intros s2 H2. apply foldM_TFw; [|exact H2]. intros s0 r H0.
+  destruct (sstate_of (sl r) s0) as [[]|]; try exact H0. destruct (is_detached _ s0); [exact H0|].
+  apply (wpg_TF_nodes _ s0 H0). apply mark_step_pending_nodes.
+Qed.
+
+Lemma step_op_TF o s : TFs s -> wpg false (step_op o s) TFs.
+Proof.
+  intros HT. destruct o; cbn [step_op].
+  - apply wpg_of_ok. intros s' H. unfold declare_static_files in H.
+    destruct (negb (is_some (find_node creator s))) eqn:Ec; [discriminate|].
+    destruct (foldM _ paths []) as [todo|t|t]; try discriminate. cbn [bind] in H.
+    eapply (foldM_TF (fun s l => declare_file creator l FUnconfirmed s)); [|exact H|exact HT].
+    intros a b c0 Hab Ha. eapply declare_file_TF; eassumption.
+  - apply (wpg_TF_nodes _ s HT). apply update_file_hashes_nodes.
+  - apply wpg_of_ok. intros s' H. eapply define_step_TF; eassumption.
+  - apply wpg_of_ok. intros s' H. eapply amend_step_TF; eassumption.
+  - apply set_sstate_TFw. exact HT.
+  - apply reset_for_rerun_TF. exact HT.
+  - apply wpg_bind. eapply wpg_weaken; [apply (wpg_TF_nodes _ s HT); apply update_file_hashes_nodes|].
+    intros s0 H0. apply wpg_bind. eapply wpg_weaken; [apply (wpg_TF_nodes _ s0 H0); apply update_file_hashes_nodes|].
+    intros s1 H1. apply mark_completed_TF. exact H1.
+  - apply wpg_bind. eapply wpg_weaken; [apply reset_for_rerun_TF; exact HT|]. intros s1 H1.
+    apply set_sstate_TFw. exact H1.
+  - apply set_sstate_TFw. exact HT.
+  - apply (wpg_TF_nodes _ s HT). apply mark_step_pending_nodes.
+  - apply delete_detached_TF. exact HT.
+  - unfold hold. destruct (negb (is_some (find_step label s))); [exact I | exact HT].
+  - unfold release. destruct (find_step label s); [|exact I]. destruct (shold s0 =? 0); [exact I | exact HT].
+  - apply reset_interrupted_TF. exact HT.
+Qed.
+
+Theorem no_tree_preserved o s : no_tree_b s = true -> no_tree_b (apply_op s o) = true.
+Proof.
+  intros H. apply no_tree_b_iff. apply no_tree_b_iff in H. unfold apply_op.
+  pose proof (step_op_TF o s H) as Hw. destruct (step_op o s); [exact Hw | exact H | exact H].
+Qed.
+
+Theorem run_ops_t_base_eq ops : forall s, no_tree_b s = true -> run_ops_t (map OpBase ops) s = run_ops ops s.
+Proof.
+  induction ops as [|o ops IH]; intros s H; [reflexivity|]. cbn [map]. unfold run_ops_t, run_ops. cbn [fold_left].
+  assert (E : apply_op_t s (OpBase o) = apply_op s o).
+  { unfold apply_op_t, apply_op. rewrite step_op_t_base_eq; [reflexivity | exact H]. }
+  rewrite E. apply IH. apply no_tree_preserved. exact H.
+Qed.
